@@ -76,7 +76,15 @@ func Explore(job string, h Harness, cfg CoopCfg) *CoopStats {
 		cfg.ShardN = 1
 	}
 	// determinism self-test: the default schedule twice
-	s1, _, o1 := RunOnce(h, nil, cfg.MaxSteps, true)
+	s1, v1, o1 := RunOnce(h, nil, cfg.MaxSteps, true)
+	if s1.Outcome == vsched.Hung {
+		rp, _ := json.Marshal(CoopReplay{Job: job})
+		v1.Replay, v1.Job = rp, job
+		st.Violations = append(st.Violations, *v1)
+		st.Poisoned = true
+		st.Exhaustive = false
+		return st
+	}
 	s2, _, o2 := RunOnce(h, nil, cfg.MaxSteps, true)
 	if o1 != o2 || fmt.Sprint(s1.Trace) != fmt.Sprint(s2.Trace) || s1.Outcome != s2.Outcome {
 		st.Violations = append(st.Violations, Violation{Kind: "harness-nondeterministic", Key: "nondet", Detail: fmt.Sprintf("default schedule ran twice with different traces: %v/%v vs %v/%v", s1.Outcome, s1.Trace, s2.Outcome, s2.Trace)})
